@@ -10,7 +10,9 @@
 (*   "mesh"     Mesh.to_hdf5(compress) / Mesh.from_hdf5                     *)
 (*   "solution" the data of every recorded step, the per-step dynamics      *)
 (*              (Solution.to_hdf5 to a new file / in place / after the      *)
-(*              output file was deleted; Solution.from_hdf5(step))          *)
+(*              output file was deleted / of a run with output_file=None;   *)
+(*              Solution.from_hdf5(step)), Solution.times,                  *)
+(*              closest_solve_step                                          *)
 (* (parameters: spec/ParamAlg.tla, clause PickleRoundTrip).                 *)
 (*                                                                          *)
 (* A record is made of content identities: option values are tokens         *)
@@ -32,7 +34,8 @@ CONSTANTS
   MLoadMissing,   \* what Load takes for an option that is not in the file: "default" (pinned) | "none" (repaired)
   MLayerCond,     \* TRUE: Layer.to_hdf5 stores the conductivity (when there is one)
   MRestoreDual,   \* TRUE: a mesh restored from stored arrays takes the stored dual/Voronoi arrays as well
-  MPolyAsHeld     \* TRUE: Polygon.to_hdf5 stores the points as the object holds them (closed, counter-clockwise)
+  MPolyAsHeld,    \* TRUE: Polygon.to_hdf5 stores the points as the object holds them (closed, counter-clockwise)
+  MDynAlways      \* TRUE: a solution without a file writes its per-step dynamics whether or not there are probe points
 
 VARIABLES kind, shape, saved, file, loaded, pc
 vars == <<kind, shape, saved, file, loaded, pc>>
@@ -130,15 +133,26 @@ MeshLoadOf(fl, sv) ==
 
 -----------------------------------------------------------------------------
 (* Solution: frames (data of every recorded step) and per-step dynamics     *)
-SolShapes == [mode : {"copy", "inplace", "deleted"}, nframes : 1..4, cur : 1..4]
-SolOK(s) == s.cur <= s.nframes
-SymSolution(s) == [frames |-> [n \in 1..s.nframes |-> 100 + n], dyn |-> 90]
-\* to_hdf5 to a new path copies the output file; after the output file was deleted only the step held in memory
-\* (and the dynamics) can be written
-SolFileOf(s, sv) == IF s.mode = "deleted" THEN [frames |-> <<sv.frames[s.cur]>>, dyn |-> sv.dyn]
+\* modes: to_hdf5 to a new path (the output file is copied) | in place | after the output file was deleted |
+\* a solution produced with output_file=None (its temporary file is gone when solve() returns).
+\* probes / screening decide which per-step records exist (mu, theta at the probe points; screening_iterations)
+SolShapes == [mode : {"copy", "inplace", "deleted", "nofile"}, nframes : 1..4, cur : 1..4, probes : BOOLEAN, screening : BOOLEAN]
+SolOK(s) == s.cur <= s.nframes /\ (s.mode = "nofile" => s.cur = s.nframes)    \* solve() returns the last step
+NoFile(s) == s.mode \in {"deleted", "nofile"}
+DynFields == {"dt", "time", "mu", "theta", "screening_iterations"}
+SymDyn(s) == [dt |-> 91, time |-> 92, mu |-> IF s.probes THEN 93 ELSE 0, theta |-> IF s.probes THEN 94 ELSE 0,
+              screening_iterations |-> IF s.screening THEN 95 ELSE 0]
+LostDyn == [f \in DynFields |-> 0]
+\* a solution = the data of every recorded step, the per-step dynamics, and what is derived from them:
+\* Solution.times and closest_solve_step at a fixed set of query times
+SymSolution(s) == [frames |-> [n \in 1..s.nframes |-> 100 + n], dyn |-> SymDyn(s), times |-> 96, closest |-> 97]
+\* without a file to copy only the step held in memory can be written, together with the whole dynamics
+SolFileOf(s, sv) == IF NoFile(s) THEN [frames |-> <<sv.frames[s.cur]>>, dyn |-> IF MDynAlways \/ s.probes THEN sv.dyn ELSE LostDyn]
                     ELSE [frames |-> sv.frames, dyn |-> sv.dyn]
-SolLoadOf(fl) == fl
-SolExpected(s, sv) == IF s.mode = "deleted" THEN [frames |-> <<sv.frames[s.cur]>>, dyn |-> sv.dyn] ELSE sv
+\* times / closest_solve_step are functions of the dynamics (and of save_every, an option)
+SolLoadOf(fl, sv) == [frames |-> fl.frames, dyn |-> fl.dyn,
+                      times |-> IF fl.dyn = sv.dyn THEN sv.times ELSE 0, closest |-> IF fl.dyn = sv.dyn THEN sv.closest ELSE 0]
+SolExpected(s, sv) == [sv EXCEPT !.frames = IF NoFile(s) THEN <<sv.frames[s.cur]>> ELSE sv.frames]
 
 -----------------------------------------------------------------------------
 Nothing == [none |-> TRUE]
@@ -169,7 +183,7 @@ Save == /\ pc = "made"
         /\ UNCHANGED <<kind, shape, saved, loaded>>
 Load == /\ pc = "saved"
         /\ loaded' = (CASE kind = "options" -> OptLoadOf(file) [] kind = "device" -> DeviceLoadOf(file)
-                        [] kind = "mesh" -> MeshLoadOf(file, saved) [] kind = "solution" -> SolLoadOf(file))
+                        [] kind = "mesh" -> MeshLoadOf(file, saved) [] kind = "solution" -> SolLoadOf(file, saved))
         /\ pc' = "loaded"
         /\ UNCHANGED <<kind, shape, saved, file>>
 
